@@ -38,13 +38,13 @@ theorem setsRng_rebind {nt nt0 nt1 nt2 no nf : Nat} {sets next : List (List (Str
 /-- invariant of the loops of `evalSpecs` over binding sets (`s1`: store at loop entry) -/
 def setsInv (s s1 : St) {β} : PostCond (β × List (List (String × TId))) PS :=
   ⟨fun (_, sets) st => ⌜Safe st ∧ Le s st ∧ SzLe s1 st ∧ SetsRng st.thunks.size sets⌝,
-   fun e st => ⌜Safe st ∧ Good2 e⌝, fun _ => ⌜True⌝, ()⟩
+   fun e st => ⌜Safe st ∧ Good2 e ∧ SzLe s st⌝, fun _ => ⌜True⌝, ()⟩
 
 /-- invariant of the loop of `evalSpecs` that collects the values of a clause -/
 def valsInv (s s1 : St) {β} : PostCond (β × List Value) PS :=
   ⟨fun (_, vals) st => ⌜Safe st ∧ Le s st ∧ SzLe s1 st ∧
       ∀ v ∈ vals, ValOk st.thunks.size st.objs.size st.funcs.size v⌝,
-   fun e st => ⌜Safe st ∧ Good2 e⌝, fun _ => ⌜True⌝, ()⟩
+   fun e st => ⌜Safe st ∧ Good2 e ∧ SzLe s st⌝, fun _ => ⌜True⌝, ()⟩
 
 theorem plan_facts {params : List (String × OptExpr)} {npos : Nat} {named : List String}
     {slots : List Bind.Slot}
@@ -197,7 +197,8 @@ theorem bindThunkArgs_spec2 (s : St) (fn : Func) (pos : List TId) (hS : Safe s)
   all_goals vcprep2
   all_goals first
     | s2close
-    | exact ⟨hS, Good2_bindErr _⟩
+    | exact ⟨hS, Good2_bindErr _, by omega, by omega, by omega, by omega⟩
+    | exact ⟨by assumption, Good2_bindErr _, by omega, by omega, by omega, by omega⟩
     | (have ht := pos_in_range (by assumption) hpos; s2close)
     | (exfalso; exact pos_missing_false (by assumption) (by assumption) (by assumption) (by assumption) rfl)
     | (exfalso; exact named_slot_false (by assumption) (by assumption) (by assumption))
